@@ -115,6 +115,44 @@ def opc2_target_decoder(ctx: Ctx) -> None:
             else:
                 ctx.R.ok("OPC-2", f"{v}: {nm} handled", f"{emitted[nm]} corpus occurrences")
     ctx.R.expect_min("OPC-2", 70)
+    # OPC-2b: an opcode without a case, or a sequence that leaves more than one value, must give up (varname None),
+    # never produce a name: "varname is never wrong"
+    chains = [n for n in ast.walk(nt) if isinstance(n, ast.If) and opname_literals(n.test)]
+    tops = [c for c in chains if not any(c in o.orelse for o in chains)]
+    big = max(tops, key=lambda c: sum(1 for _ in ast.walk(c))) if tops else None
+    if big is None:
+        raise AnalysisError("OPC-2b: dispatch chain not found")
+    last = big
+    while last.orelse and len(last.orelse) == 1 and isinstance(last.orelse[0], ast.If):
+        last = last.orelse[0]
+    if last.orelse and isinstance(last.orelse[-1], ast.Raise):
+        ctx.R.ok("OPC-2b", "an opcode without a case raises (-> varname None)")
+    else:
+        ctx.R.fail("OPC-2b", mod, last, "the dispatch chain of the target decoder does not end in a raising `else`: an instruction it does not understand is silently skipped and a wrong name can be produced",
+                   construct="dispatch chain: else raise")
+    depth_ifs = [n for n in ast.walk(nt) if isinstance(n, ast.If) and "len(stack)" in norm(n.test)]
+    if any(isinstance(n.body[-1], ast.Raise) and norm(n.test) in ("len(stack) != 1", "not len(stack) == 1") for n in depth_ifs):
+        ctx.R.ok("OPC-2b", "a store sequence that does not leave exactly one value raises (-> varname None)")
+    elif not depth_ifs:
+        ctx.R.fail("OPC-2b", mod, nt, "the decoder no longer rejects store sequences that leave more or fewer than one value on its symbolic stack: a partial expression is reported as the target",
+                   construct="len(stack) != 1 -> raise")
+    elif any(not isinstance(n.body[-1], ast.Raise) for n in depth_ifs):
+        ctx.R.fail("OPC-2b", mod, depth_ifs[0], "the decoder's stack-depth check no longer raises", construct="len(stack) != 1 -> raise")
+    else:
+        ctx.R.undecided("OPC-2b", "stack-depth check has an unrecognised condition")
+    tries = [t for t in ast.walk(outer) if isinstance(t, ast.Try) and any(isinstance(c, ast.Call) and norm(c.func) == "next_target" for b in t.body for c in ast.walk(b))]
+    okx = False
+    for t in tries:
+        for h in t.handlers:
+            names = [norm(e) for e in h.type.elts] if isinstance(h.type, ast.Tuple) else ([norm(h.type)] if h.type is not None else [])
+            if ("ValueError" in names or "Exception" in names) and ("IndexError" in names or "Exception" in names or "LookupError" in names) \
+                    and len(h.body) == 1 and isinstance(h.body[0], ast.Return) and norm(h.body[0].value) == "None":
+                okx = True
+    if okx:
+        ctx.R.ok("OPC-2b", "ValueError / IndexError from the decoder become varname None")
+    else:
+        ctx.R.fail("OPC-2b", mod, outer, "a decoder failure (ValueError for an unknown opcode, IndexError for an underflow of its symbolic stack) must turn into varname None, not propagate as an InspectionWarning for the whole frame",
+                   construct="except (ValueError, IndexError): return None")
 
 
 # --------------------------------------------------------------------- OPC-3 / 3b
@@ -277,7 +315,12 @@ def opc3b_fillers(ctx: Ctx) -> None:
                             continue
                         for g, pol in gs:
                             if pol and any(nm in names for _, names in opname_literals(g)):
-                                ok = True
+                                if isinstance(st.op, ast.Add) and isinstance(st.value, ast.Constant) and st.value.value == 1:
+                                    ok = True
+                                else:
+                                    ctx.R.fail("OPC-3b", mod, st, f"CPython {v}: the adjustment for the filler {nm} must skip exactly one more instruction (`+= 1`); the code does `{norm(st)}`",
+                                               construct=f"{v}/{kind}: filler {nm} adjustment {norm(st)}")
+                                    ok = True
                 if ok:
                     ctx.R.ok("OPC-3b", f"{v}/{kind}: filler {nm} (layout {lay}) is skipped")
                 else:
@@ -462,7 +505,19 @@ def int_intervals(ctx: Ctx) -> None:
                     consumers += 1
                     lo_ok = isinstance(n.ops[0], ast.LtE)
                     hi_ok = isinstance(n.ops[1], ast.LtE) if inclusive else isinstance(n.ops[1], ast.Lt)
-                    if lo_ok and hi_ok:
+                    negated = any(isinstance(a, ast.UnaryOp) and isinstance(a.op, ast.Not) for a in cm.ancestors(n) if isinstance(a, ast.expr))
+                    if negated and not isinstance(cm.parent_of(cm.parent_of(n)), ast.If):
+                        negated = True
+                    if negated:
+                        par = [a for a in cm.ancestors(n) if isinstance(a, ast.If)]
+                        # `if not (start <= x <= end): break` is a legitimate way to leave a walk; what must not happen is
+                        # that the negated test selects the covering entry
+                        body_assigns = [norm(x) for x in par[0].body] if par else []
+                        if any(b.startswith("handler_depth =") or "FinallyBlock(" in b for b in body_assigns):
+                            ctx.R.fail("INT", cm, n, "the coverage test is negated: the handler entry is taken exactly when it does NOT cover the position")
+                        else:
+                            ctx.R.ok("INT", f"{cm.name}.{fnname}: not ({norm(n)}) leaves the walk")
+                    elif lo_ok and hi_ok:
                         ctx.R.ok("INT", f"{cm.name}.{fnname}: {norm(n)}")
                     else:
                         ctx.R.fail("INT", cm, n, f"the exception-table producer yields an {'inclusive' if inclusive else 'exclusive'} end, "
@@ -730,7 +785,7 @@ def line1(ctx: Ctx) -> None:
                 ctx.R.fail("LINE-1", mod, c, "partial Context must have obj=None")
             else:
                 ctx.R.ok("LINE-1", norm(c)[:100])
-    if n < 2:
+    if n < 1:
         raise AnalysisError("LINE-1: Context constructions in analyze_with_blocks not found")
     # is_async agrees with the opcode
     for c in ast.walk(loop):
@@ -740,10 +795,27 @@ def line1(ctx: Ctx) -> None:
             if isinstance(par, (ast.keyword, ast.Assign)):
                 tgt = par.arg if isinstance(par, ast.keyword) else norm(par.targets[0])
                 if tgt == "is_async":
-                    if "ASYNC" in c.comparators[0].value:
+                    if "ASYNC" in c.comparators[0].value and not any(isinstance(a, ast.UnaryOp) for a in mod.ancestors(c) if isinstance(a, ast.expr)):
                         ctx.R.ok("LINE-1", f"is_async = ({norm(c)})")
                     else:
-                        ctx.R.fail("LINE-1", mod, c, "is_async must be derived from the ASYNC with-opcode")
+                        ctx.R.fail("LINE-1", mod, c, "is_async must be true exactly for the ASYNC with-opcode")
+        if isinstance(c, ast.Compare) and len(c.ops) == 1 and isinstance(c.ops[0], ast.NotEq) and norm(c.left) == "insn.opname" \
+                and isinstance(c.comparators[0], ast.Constant) and "WITH" in str(c.comparators[0].value):
+            par = mod.parent_of(c)
+            tgt = par.arg if isinstance(par, ast.keyword) else (norm(par.targets[0]) if isinstance(par, ast.Assign) else None)
+            if tgt == "is_async":
+                opn = c.comparators[0].value
+                if "ASYNC" in opn:
+                    ctx.R.fail("LINE-1", mod, c, f"is_async is computed as `opname != {opn!r}`: it is true for synchronous with statements and false for async ones")
+    # OPC-7: every with-opcode branch records its Context in the result map under the handler offset
+    for br, names in _with_branches(ctx, mod, fn):
+        stores = [x for x in ast.walk(br) if isinstance(x, ast.Assign) and isinstance(x.targets[0], ast.Subscript) and norm(x.targets[0].value) == "with_block_info"
+                  and any(x is y for b in br.body for y in ast.walk(b))]
+        if stores and all(isinstance(x.value, ast.Call) and norm(x.value.func) == "Context" for x in stores) and all(norm(x.targets[0].slice) == "cleanup_offset" for x in stores):
+            ctx.R.ok("LINE-1", f"branch {names}: with_block_info[cleanup_offset] = Context(...)")
+        elif not stores:
+            ctx.R.fail("LINE-1", mod, br, f"the branch handling {names} never records a Context in with_block_info: no with block is recognised on the interpreters that use these opcodes",
+                       construct=f"branch {names}: no with_block_info store")
 
 
 def fall1(ctx: Ctx) -> None:
